@@ -343,6 +343,7 @@ impl MemorySideCache {
 
 impl Aml for MemorySideCache {
     fn to_aml_bytes(&self, sink: &mut dyn AmlSink) {
+        assert!(self.smbios_handles.len() <= u16::MAX as usize);
         sink.word(HmatStructureType::MemorySideCache as u16);
         sink.word(0); // reserved
         sink.dword(self.len() as u32);
